@@ -552,10 +552,99 @@ def marker_check(case, ctx):
     return res
 
 
+# ---- results with unspecified upper bits ----------------------------------------------------------------------
+# The x86-64 psABI defines only the low 8/16/32 bits of the result register for _Bool/char/short/int results; what the
+# platform compiler leaves above them is arbitrary.  The callee here is written in assembler and returns each value with
+# every undefined bit set to garbage; the caller is C, once compiled by gcc (reference) and once by cproc.
+DIRTY_ASM = r"""
+__asm__(".text\n"
+".globl db_false\n db_false: movabsq $0xdeadbeefcafebe00, %rax\n ret\n"
+".globl db_true\n db_true: movabsq $0xdeadbeefcafebe01, %rax\n ret\n"
+".globl d_sc\n d_sc: movabsq $0x12345678123456f0, %rax\n ret\n"
+".globl d_uc\n d_uc: movabsq $0x12345678ffffff0f, %rax\n ret\n"
+".globl d_ss\n d_ss: movabsq $0x7fffffff7fff8001, %rax\n ret\n"
+".globl d_us\n d_us: movabsq $0xffffffffffff0002, %rax\n ret\n"
+".globl d_si\n d_si: movabsq $0xdeadbeef80000005, %rax\n ret\n"
+".globl d_ui\n d_ui: movabsq $0xffffffff00000007, %rax\n ret\n"
+".globl d_zero\n d_zero: movabsq $0xfeedfacefeed0000, %rax\n ret\n"
+);
+"""
+DIRTY_DECLS = ("_Bool db_false(void); _Bool db_true(void); signed char d_sc(void); unsigned char d_uc(void); short d_ss(void); unsigned short d_us(void);\n"
+               "int d_si(void); unsigned d_ui(void); short d_zero(void);\n")
+DIRTY_USES = [
+    "chk_i64(%s ? 1 : 2);", "if (%s) chk_i64(10); else chk_i64(11);", "chk_i64(%s && 1);", "chk_i64(0 || %s);", "chk_i64(!%s);", "chk_i64(%s + 0);", "{ long l = %s; chk_i64(l); }",
+    "chk_i64(%s < 0);", "chk_i64(%s == 0);", "while (%s) { chk_i64(99); break; }", "for (; %s;) { chk_i64(98); break; }", "{ int n = 0; do { n++; } while (%s && n < 3); chk_i64(n); }",
+    "switch (%s) { case 0: chk_i64(20); break; case 1: chk_i64(21); break; case -16: chk_i64(22); break; case 15: chk_i64(23); break; case 2: chk_i64(24); break; case 5: chk_i64(26); break; default: chk_i64(25); }",
+    "chk_f64((double)%s);", "chk_u64((unsigned long)%s);", "chk_i64(%s >> 1);", "chk_i64(-%s);", "chk_i64(~%s);", "chk_i64(%s * 3);", "{ long a[20] = { 0 }; a[(unsigned char)%s & 15] = 5; chk_i64(a[0] + a[1] + a[15]); }",
+    "{ __typeof__(%s) v = %s; chk_i64(v); }", "chk_i64(pass_l(%s));", "chk_i64(%s ? %s : 7);", "chk_i64((%s, 3) + %s);",
+]
+
+
+def dirty_enum(ctx):
+    fns = ["db_false", "db_true", "d_sc", "d_uc", "d_ss", "d_us", "d_si", "d_ui", "d_zero"]
+    for i, fn in enumerate(fns):
+        for ind in (False, True):
+            yield {"fn": fn, "indirect": ind}
+
+
+def dirty_check(case, ctx):
+    res = Result()
+    fn = case["fn"]
+    call = "%s()" % fn if not case["indirect"] else "fp()"
+    body = []
+    if case["indirect"]:
+        body.append("\t__typeof__(%s) *volatile_free_fp = %s, *fp = volatile_free_fp;" % (fn, fn))
+    for u in DIRTY_USES:
+        body.append("\t" + u.replace("%s", call))
+    caller = PROLOGUE + DIRTY_DECLS + "static long pass_l(long v) { return v; }\nint main(void) {\n" + "\n".join(body) + "\n\treturn 0;\n}\n"
+    d = tempfile.mkdtemp(dir=ctx.wdir())
+    try:
+        outs = {}
+        for how in ("gcc", "cproc"):
+            sub = os.path.join(d, how)
+            os.makedirs(sub)
+            try:
+                units = [build_side(ctx, sub, "caller", caller, how), ("c", "callee", DIRTY_ASM, [])]
+                exe = ilexec.build_exe(ctx, sub, units, asan=True)
+            except RuntimeError as e:
+                res.fail = dict(sig="reject:" + c01._errsig(str(e)), msg=str(e), input=caller)
+                return res
+            except ValueError as e:
+                res.fail = dict(sig="", msg="malformed IL: %s" % e.args[0][:3], input=caller)
+                return res
+            except il2c.Unsupported as e:
+                res.discard.append("il2c-unsupported: %s" % e)
+                return res
+            except ilexec.ExecError as e:
+                res.fail = dict(sig="machinery:il2c", msg=str(e)[:1500], input=caller)
+                return res
+            res.n += 1
+            outs[how] = ilexec.run_exe(exe, timeout=20)
+        a, b = outs["gcc"], outs["cproc"]
+        if a[0] != "ok" or a[1] != 0:
+            res.discard.append("control-run-failed")
+            return res
+        if b[0] != "ok" or b[1] != a[1] or b[2] != a[2]:
+            la, lb = a[2].decode(errors="replace").splitlines(), b[2].decode(errors="replace").splitlines()
+            i = 0
+            while i < min(len(la), len(lb)) and la[i] == lb[i]:
+                i += 1
+            res.fail = dict(sig="", msg="result of %s with garbage in the bits the ABI leaves undefined: value #%d is %r, the platform compiler's caller prints %r (%s)"
+                            % (call, i, lb[i] if i < len(lb) else None, la[i] if i < len(la) else None, b[0]), input=caller)
+            return res
+        res.keys.append(sha([fn, case["indirect"]]))
+        res.labels.append("dirty-result")
+        res.sample = {"dirty-result-of": call}
+        return res
+    finally:
+        shutil.rmtree(d, ignore_errors=True)
+
+
 def sources(ctx):
     return [
         Source("input", input_check, enum=lambda ctx: iter(())),
         Source("markers", marker_check, enum=marker_enum, exhaustive=True),
+        Source("dirty", dirty_check, enum=dirty_enum, exhaustive=True),
         Source("structural", struct_check, strategy=lambda c: struct_cases(), examples={"quick": 1500, "thorough": 50000}),
         Source("dynamic", dynamic_check, strategy=lambda c: signatures(), examples={"quick": 220, "thorough": 6000}),
     ]
